@@ -122,7 +122,7 @@ class OpsMixin:
         # user-defined operators on repository objects
         dunder = {"BitOr": "__or__", "BitAnd": "__and__", "BitXor": "__xor__", "Add": "__add__", "MatMult": "__matmul__",
                   "Sub": "__sub__", "Mult": "__mul__"}.get(op)
-        if dunder and isinstance(a, (Obj, UVal)) and not (isinstance(a, UVal) and a.cls is None):
+        if dunder and isinstance(a, (Obj, UVal)) and not (isinstance(a, UVal) and a.cls in (None, "leaf", "array", "key", "value")):
             return self.call_method(a, dunder, [b], {})
         if dunder and isinstance(b, (Obj,)) and not is_num(a):
             r = "__r" + dunder[2:]
@@ -139,7 +139,8 @@ class OpsMixin:
                 return TupleT(a + b.head, b.tail)
             if isinstance(a, tuple) and isinstance(b, UVal):
                 return TupleT(a, b.t) if a else b
-            if isinstance(a, (TupleT, UVal)) and isinstance(b, (tuple, TupleT, UVal)) and not is_num(b):
+            if isinstance(a, (TupleT, UVal)) and isinstance(b, (tuple, TupleT, UVal)) and not is_num(b) and \
+                    (isinstance(a, TupleT) or a.cls == "tuple" or isinstance(b, (tuple, TupleT)) or b.cls == "tuple"):
                 f = self.ctx.fn("tuple_concat", U, U, U)
                 return UVal(f(self.to_u(a), self.to_u(b)), "tuple")
         if op == "BitOr" and _typeish(a) and _typeish(b):
